@@ -70,6 +70,10 @@ def cases(tier, seed):
     reals = list(itertools.product(("field", "current"), (0.25, 0.5), (1, 3, 10)))[:nreal]
     for drive, mult, win in reals:
         out.append(dict(fam="real", drive=drive, mult=mult, window=win))
+    # pinned terminal values other than 0: the windowed change must be that of the states actually visited
+    for tp in ("0.5", "0.6+0.3j", "1", "None") if tier == "quick" else ("0.5", "0.6+0.3j", "1", "None", "1e-3", "0.9"):
+        for win in (1, 3):
+            out.append(dict(fam="real", drive="gentle_current", mult=0.5, window=win, terminal_psi=tp))
     return out
 
 
@@ -245,14 +249,22 @@ def run_real_case(case):
 
     res = CaseResult()
     res.key = case_key(case)
-    dev = drivers.tiny(2, terminals=(case["drive"] == "current"))
-    kw = {"applied_vector_potential": 1.8} if case["drive"] == "field" else {
-        "terminal_currents": {"source": 16.0, "drain": -16.0}, "applied_vector_potential": 0.4}
-    s = dict(dt_init=0.1, dt_max=0.6, window=case["window"], mult=case["mult"], maxr=12, adaptive=True)
+    dev = drivers.tiny(2, terminals=(case["drive"] != "field"))
+    if case["drive"] == "field":
+        kw = {"applied_vector_potential": 1.8}
+    elif case["drive"] == "current":
+        kw = {"terminal_currents": {"source": 16.0, "drain": -16.0}, "applied_vector_potential": 0.4}
+    else:
+        kw = {"terminal_currents": {"source": 0.5, "drain": -0.5}, "applied_vector_potential": 0.2}
+    gentle = case["drive"] == "gentle_current"
+    s = dict(dt_init=(1e-3 if gentle else 0.1), dt_max=(0.2 if gentle else 0.6), window=case["window"], mult=case["mult"], maxr=12, adaptive=True)
+    tp = {"None": None}.get(case.get("terminal_psi", "0"), None if case.get("terminal_psi") == "None" else complex(case.get("terminal_psi", "0")))
+    if tp is not None and tp.imag == 0:
+        tp = tp.real
     opts = tdgl.SolverOptions(
-        solve_time=6.0, dt_init=s["dt_init"], dt_max=s["dt_max"], adaptive=True, adaptive_window=s["window"],
+        solve_time=(1.0 if gentle else 6.0), dt_init=s["dt_init"], dt_max=s["dt_max"], adaptive=True, adaptive_window=s["window"],
         max_solve_retries=s["maxr"], adaptive_time_step_multiplier=s["mult"], save_every=1, output_file="out.h5",
-        progress_interval=10**9,
+        progress_interval=10**9, terminal_psi=tp,
     )
     try:
         tdgl.solve(dev, opts, **kw)
@@ -282,7 +294,7 @@ def run_real_case(case):
     res.count("real_steps", len(dts))
     res.count("retried", nretry)
     res.nontrivial = len(dts) > s["window"] + 2
-    res.outcome = f"real;retries={'yes' if nretry else 'no'}"
+    res.outcome = f"real;retries={'yes' if nretry else 'no'};tp={case.get('terminal_psi', '0')}"
     return res
 
 
